@@ -29,35 +29,105 @@ def path_alphabet() -> Alphabet:
 
 
 # ------------------------------------------------------------------ anchors by role
-def find_translator(repo: Repo) -> tuple[ast.FunctionDef, str, ast.Call]:
-    """The function whose results are joined by '|' and compiled into `_paths_regex`."""
-    post = repo.func(f"{GL}.AnnotationsItem.__attrs_post_init__")
-    for n in ast.walk(post):
-        if isinstance(n, ast.Assign) and any(ast.unparse(t) == "self._paths_regex" for t in n.targets):
-            v = n.value
-            if not (isinstance(v, ast.Call) and ast.unparse(v.func) == "re.compile" and len(v.args) == 1
-                    and not v.keywords):
-                raise AnalysisError("_paths_regex is not a plain re.compile(...) without flags")
-            j = v.args[0]
-            if not (isinstance(j, ast.Call) and isinstance(j.func, ast.Attribute) and j.func.attr == "join"
-                    and isinstance(j.func.value, ast.Constant)):
-                raise AnalysisError("_paths_regex is not compiled from a str.join")
-            sep = j.func.value.value
-            gen = j.args[0]
+class Matcher:
+    """How AnnotationsItem turns its globs into the compiled pattern, extracted from the source:
+    the expression passed to re.compile is kept as a template over `SEP.join(translate(p) for p in paths)`
+    and evaluated for concrete glob lists with the extracted transducer standing in for the translator."""
+
+    def __init__(self, repo: Repo):
+        self.repo = repo
+        post = repo.func(f"{GL}.AnnotationsItem.__attrs_post_init__")
+        self.post = post
+        self.compile_call = None
+        for n in ast.walk(post):
+            if isinstance(n, ast.Assign) and any(ast.unparse(t) == "self._paths_regex" for t in n.targets):
+                self.compile_call = n.value
+        v = self.compile_call
+        if v is None:
+            raise AnalysisError("anchor vanished: assignment of AnnotationsItem._paths_regex")
+        if not (isinstance(v, ast.Call) and ast.unparse(v.func) == "re.compile" and len(v.args) == 1 and not v.keywords):
+            raise AnalysisError("_paths_regex is not a plain re.compile(<expr>) without flags")
+        self.expr = v.args[0]
+        self.translator_name = None
+        self.sorted_iter = None
+        self.separators: list[str] = []
+        self._scan(self.expr, 0)
+        if self.translator_name is None:
+            raise AnalysisError("no `SEP.join(translator(p) for p in self.paths)` inside the compiled expression")
+        qual = f"{GL}.AnnotationsItem.__attrs_post_init__.{self.translator_name}"
+        if not repo.has_func(qual):
+            qual = f"{GL}.{self.translator_name}"
+        self.fn = repo.func(qual)
+        self.qual = qual
+        self.tr = Transducer(self.fn)
+
+    def _local(self, name: str):
+        from ..rules import single_assign_value
+        return single_assign_value(self.post, name)
+
+    def _scan(self, e, depth):
+        if depth > 6:
+            raise AnalysisError("compiled expression too deep")
+        if isinstance(e, ast.Constant) and isinstance(e.value, str):
+            return
+        if isinstance(e, ast.JoinedStr):
+            for p in e.values:
+                if isinstance(p, ast.FormattedValue):
+                    self._scan(p.value, depth + 1)
+            return
+        if isinstance(e, ast.BinOp) and isinstance(e.op, ast.Add):
+            self._scan(e.left, depth + 1)
+            self._scan(e.right, depth + 1)
+            return
+        if isinstance(e, ast.Name):
+            v = self._local(e.id)
+            if v is None:
+                raise AnalysisError(f"cannot resolve local {e.id} in the compiled expression")
+            self._scan(v, depth + 1)
+            return
+        if isinstance(e, ast.Call) and isinstance(e.func, ast.Attribute) and e.func.attr == "join" \
+                and isinstance(e.func.value, ast.Constant) and len(e.args) == 1:
+            gen = e.args[0]
             if not isinstance(gen, (ast.GeneratorExp, ast.ListComp)) or len(gen.generators) != 1:
                 raise AnalysisError("join argument is not a comprehension over the paths")
-            if ast.unparse(gen.generators[0].iter) != "self.paths" or gen.generators[0].ifs:
-                raise AnalysisError("alternation does not range over all of self.paths")
+            g = gen.generators[0]
+            it = ast.unparse(g.iter)
+            if it not in ("self.paths", "sorted(self.paths)", "list(self.paths)"):
+                raise AnalysisError(f"alternation ranges over {it}, not over self.paths")
+            if g.ifs:
+                raise AnalysisError("alternation filters the paths")
             elt = gen.elt
             if not (isinstance(elt, ast.Call) and isinstance(elt.func, ast.Name) and len(elt.args) == 1
-                    and ast.unparse(elt.args[0]) == ast.unparse(gen.generators[0].target)):
+                    and ast.unparse(elt.args[0]) == ast.unparse(g.target)):
                 raise AnalysisError("alternation element is not translator(path)")
-            name = elt.func.id
-            qual = f"{GL}.AnnotationsItem.__attrs_post_init__.{name}"
-            if not repo.has_func(qual):
-                qual = f"{GL}.{name}"
-            return repo.func(qual), sep, v
-    raise AnalysisError("anchor vanished: assignment of AnnotationsItem._paths_regex")
+            self.translator_name = elt.func.id
+            self.sorted_iter = it == "sorted(self.paths)"
+            self.separators.append(e.func.value.value)
+            return
+        raise AnalysisError(f"unsupported construct in the compiled expression: {ast.unparse(e)[:60]}")
+
+    def regex_for(self, globs: list[str]) -> str:
+        order = sorted(globs) if self.sorted_iter else list(globs)
+
+        def ev(e) -> str:
+            if isinstance(e, ast.Constant):
+                return e.value
+            if isinstance(e, ast.JoinedStr):
+                return "".join(p.value if isinstance(p, ast.Constant) else ev(p.value) for p in e.values)
+            if isinstance(e, ast.BinOp):
+                return ev(e.left) + ev(e.right)
+            if isinstance(e, ast.Name):
+                return ev(self._local(e.id))
+            if isinstance(e, ast.Call):
+                return e.func.value.value.join(self.tr.run(g)[0] for g in order)
+            raise AnalysisError("template evaluation")
+
+        return ev(self.expr)
+
+
+def find_translator(repo: Repo):
+    m = Matcher(repo)
+    return m.fn, (m.separators[0] if m.separators else ""), m.compile_call
 
 
 # ------------------------------------------------------------------ reference readings (B7)
@@ -153,13 +223,13 @@ def bmodel_parts(toks):
 
 
 # ------------------------------------------------------------------ per-glob decision
-def decide(tr: Transducer, glob: str):
+def decide(m: "Matcher", glob: str):
     """-> None (ok / skipped) or dict describing the deviation."""
     toks = tokenise(glob)
     if toks is None:
         return "skipped"
     alpha = path_alphabet()
-    regex, path = tr.run(glob)
+    regex = m.regex_for([glob])
     try:
         impl = Lang.from_regex(regex, 0, alpha, "match")
     except AnalysisError as err:
@@ -192,9 +262,7 @@ _TR = None
 def _worker(globs: list[str]):
     global _TR
     if _TR is None:
-        repo = Repo()
-        fn, _, _ = find_translator(repo)
-        _TR = Transducer(fn)
+        _TR = Matcher(Repo())
     out = []
     skipped = 0
     for g in globs:
@@ -255,34 +323,32 @@ def is_minimal(glob: str, bad: set[str]) -> bool:
 # ------------------------------------------------------------------ rules
 def rule_model(ck: Check, repo: Repo):
     r = ck.rule("R1", "glob translator extracted as a finite transducer; literal emissions escaped; full-match wrapper")
-    fn, sep, compile_call = find_translator(repo)
-    qual = repo.qualname_of(fn)
+    global _TR
+    m = Matcher(repo)
+    _TR = m
+    fn, compile_call, tr = m.fn, m.compile_call, m.tr
+    sep = m.separators[0]
+    qual = m.qual
     ck.analysed_fn(qual, f"{GL}.AnnotationsItem.__attrs_post_init__")
-    tr = Transducer(fn)
     r.count(len(tr.delta), prefix="transition")
     r.floor(16, "transducer transitions", got=len(tr.delta))
     for row in tr.table()[:3]:
         r.sample(row)
     ck.extra["transducer"] = {"states": len(tr.states), "transitions": len(tr.delta),
                               "state_vars": tr.state_vars, "input_classes": tr.literals + ["<other>"],
-                              "wrapper": list(tr.wrapper), "table": tr.table()}
+                              "wrapper": list(tr.wrapper), "compiled_expression": ast.unparse(m.expr),
+                              "paths_sorted": m.sorted_iter, "table": tr.table()}
     for (st, cls), (nxt, toks) in tr.delta.items():
         for t in toks:
             if t.kind == "rawchar":
                 r.violation(qual, f"raw emission of the input character in state [{tr.show_state(st)}]",
                             "a path character is copied into the regular expression without re.escape",
                             repo.loc(fn))
-    if sep != "|":
-        r.violation(qual, f"alternatives joined by {sep!r}", "the per-glob expressions must be alternatives (|)",
-                    repo.loc(compile_call))
-    if tr.wrapper != ("^(", ")$"):
-        # acceptable only if each alternative is still a self-contained full match
-        r.note(f"wrapper is {tr.wrapper}")
     # matcher: truthiness of .match on the compiled alternation
     mq = f"{GL}.AnnotationsItem.matches"
-    m = repo.func(mq)
+    mfn = repo.func(mq)
     ck.analysed_fn(mq)
-    rets = [n for n in ast.walk(m) if isinstance(n, ast.Return)]
+    rets = [n for n in ast.walk(mfn) if isinstance(n, ast.Return)]
     txt = ast.unparse(rets[0].value) if len(rets) == 1 else "?"
     r.instance("matches", {"returns": txt}, mq)
     mode = None
@@ -292,26 +358,32 @@ def rule_model(ck: Check, repo: Repo):
         mode = "full"
     else:
         r.violation(mq, "matcher is not the truthiness of match/fullmatch on the compiled globs",
-                    f"matches() returns {txt}", repo.loc(m))
+                    f"matches() returns {txt}", repo.loc(mfn))
         mode = "match"
-    # alternation of two globs == union of the single languages (needs the anchored group wrapper)
+    # an item with several globs matches exactly the union of the single-glob languages (any order of the set)
     alpha = path_alphabet()
-    for g1, g2 in (("a", "b/*"), ("*.a", "a/**"), ("a*", "*b")):
-        r1, _ = tr.run(g1)
-        r2, _ = tr.run(g2)
-        both = Lang.from_regex(r1 + sep + r2, 0, alpha, mode)
-        from ..relang import union
-        u = union(alpha, [Lang.from_regex(r1, 0, alpha, mode), Lang.from_regex(r2, 0, alpha, mode)])
-        d = difference(both, u)
-        r.instance(f"alternation:{g1}|{g2}", {"globs": [g1, g2], "difference": d})
-        if d is not None:
-            r.violation(qual, f"alternation of {g1!r} and {g2!r} is not the union of the two",
-                        f"path {d[1]!r} is {d[0]} — alternatives are not self-contained full matches",
-                        repo.loc(compile_call))
+    from ..relang import union
+    for pair in (("a", "b/*"), ("*.a", "a/**"), ("a*", "*b"), ("b", "a"), ("a/*", "a")):
+        for globs in (list(pair), list(reversed(pair))):
+            both = Lang.from_regex(m.regex_for(globs), 0, alpha, mode)
+            singles = []
+            for g in globs:
+                t = tokenise(g)
+                singles.append(Lang.from_parts(alpha, narrow_parts(t), g))
+            u = union(alpha, singles)
+            d = difference(both, u)
+            r.instance(f"alternation:{globs}", {"globs": globs, "regex": m.regex_for(globs), "difference": d})
+            if d is not None:
+                r.violation(qual, f"an item with the globs {sorted(globs)} does not match the union of the two",
+                            f"compiled as {m.regex_for(globs)!r}: path {d[1]!r} is "
+                            f"{'matched although neither glob matches it' if d[0] == 'only-first' else 'not matched although one glob matches it'}",
+                            repo.loc(compile_call), {"globs": globs, "witness": d[1]})
+                break
     return tr, qual, fn
 
 
 def rule_sandwich(ck: Check, repo: Repo, tr: Transducer, qual: str, fn) -> None:
+    m = _TR
     r = ck.rule("R2", "for every glob <= N: narrow(g) ⊆ L(translate(g)) ⊆ wide(g), paths of any length")
     bound = 5 if ck.tier == "quick" else 8
     jobs = 1 if ck.tier == "quick" else min(16, os.cpu_count() or 1)
@@ -334,7 +406,7 @@ def rule_sandwich(ck: Check, repo: Repo, tr: Transducer, qual: str, fn) -> None:
     bad = {d["glob"] for d in devs}
     class_b = [d for d in devs if d["classB"]]
     others = [d for d in devs if not d["classB"]]
-    r.sample({"glob": "*.a", "regex": tr.run("*.a")[0], "verdict": "within [narrow, wide]"})
+    r.sample({"glob": "*.a", "regex": m.regex_for(["*.a"]), "verdict": "within [narrow, wide]"})
     if class_b:
         ex = min(class_b, key=lambda d: (len(d["glob"]), d["glob"]))
         r.violation(
